@@ -3,6 +3,8 @@ package main
 import (
 	"bytes"
 	"fmt"
+	"sort"
+	"strings"
 
 	"github.com/hashicorp/go-hclog"
 	"verif/codec"
@@ -389,6 +391,81 @@ func registerRound2() {
 		},
 		Quick: 2, Thor: 3,
 	})
+
+	// a route is registered on the server's mux while a handler runs and further requests arrive: they are
+	// dispatched all the same (C15 is stated for routes registered before Run: races are not reported here)
+	regSpec(&Spec{
+		Name: "route-registered-while-a-handler-runs", Props: []string{"C03", "C06"}, NoRaces: true,
+		Conns: []ConnSpec{
+			{Ops: []string{"search"}, H: map[int]*HSpec{1: {WaitNote: "fresh-done"}}, Expect: 1, Name: "faulty"},
+			{Ops: []string{"bind", "search"}, Segs: []int{1, 1}, Expect: 2, Name: "fresh", WaitNote: "registration-started"},
+		},
+		Extra: func(w *World) {
+			vrt.GoNamed("reconfigure", func() {
+				vrt.WaitUntil("handler-running", func() bool { return w.Started >= 1 })
+				vrt.Atomic(func() { w.Notes["registration-started"]++ })
+				_ = w.Mux.ExtendedOperation(w.handler("extended"), gldap.ExtendedOperationName("1.2.3.99"))
+				vrt.Atomic(func() { w.Notes["registered"]++ })
+			})
+		},
+		Quick: 2, Thor: 3,
+	})
+
+	// ---------------------------------------------------------------- C16: NewEntry called by several goroutines
+	reg(&Scn{Name: "newentry-concurrent-calls", Props: []string{"C16"}, Quick: 2, Thor: -1, Body: func() {
+		w := NewWorld()
+		curSpec = nil
+		_ = w
+		maps := []map[string][]string{
+			{"cn": {"a"}, "mail": {"a@x", "a2@x"}, "sn": {"A"}},
+			{"uid": {"b"}, "description": {"d"}, "objectClass": {"top", "person"}, "zz": {"last"}},
+			{"memberOf": {"g1", "g2"}, "name": {"c"}},
+		}
+		bad := ""
+		done := 0
+		for i, m := range maps {
+			i, m := i, m
+			vrt.GoNamed(fmt.Sprintf("caller%d", i+1), func() {
+				defer func() { vrt.Atomic(func() { done++ }) }()
+				for round := 0; round < 2; round++ {
+					e := gldap.NewEntry(fmt.Sprintf("cn=e%d", i), m)
+					var names []string
+					for k := range m {
+						names = append(names, k)
+					}
+					sort.Strings(names)
+					ok := len(e.Attributes) == len(names)
+					for j := 0; ok && j < len(names); j++ {
+						a := e.Attributes[j]
+						ok = a.Name == names[j] && len(a.Values) == len(m[names[j]])
+						for v := 0; ok && v < len(a.Values); v++ {
+							ok = a.Values[v] == m[names[j]][v] && v < len(a.ByteValues) && string(a.ByteValues[v]) == a.Values[v]
+						}
+					}
+					if !ok {
+						var got []string
+						for _, a := range e.Attributes {
+							got = append(got, fmt.Sprintf("%s=%v", a.Name, a.Values))
+						}
+						vrt.Atomic(func() {
+							bad = fmt.Sprintf("caller %d round %d: got %v, want the attributes %v of its own map in name order", i+1, round, got, names)
+						})
+					}
+				}
+			})
+		}
+		vrt.WaitUntil("callers-done", func() bool { return done == len(maps) })
+		if bad != "" {
+			vrt.Logf("NEWENTRY-WRONG %s", bad)
+		}
+	}, Check: func(x *vrt.Sched, w *World) []Finding {
+		for _, l := range x.Log {
+			if strings.HasPrefix(l, "NEWENTRY-WRONG ") {
+				return []Finding{{"C16", "NewEntry returns other attributes than its own map's (in name order) when calls overlap", l}}
+			}
+		}
+		return nil
+	}})
 
 	// ---------------------------------------------------------------- C11
 	// Stop while a StartTLS handler waits for a ClientHello that never comes
